@@ -10,6 +10,9 @@ Gen/RtpDemux.v
     and, per lookup, whether a hit sets `bind_ssrc` (`selected.is_some()`) or not (`false`), as
     `demux_stages : list (stage * bool)`.  Model/Demux.v folds over this list, so re-ordering two
     lookups or letting the provisional fallback bind an SSRC changes what the theorems are about.
+  * whether the MID guard is present (`demux_mid_guard`) and which stages precede
+    `let by_extension = selected.is_some();` (`demux_ext_stages`), with the guard statement and
+    `ListenerRegistry::registered_for_other_mid` matched verbatim.
   * that a bind goes through `bind_ssrc_route(ssrc, tx.clone())` guarded by `bind_ssrc`, and that a
     closed channel is answered by `by_ssrc.remove(&ssrc)` + `remove_sender(&tx)` (shape check only).
 
@@ -18,7 +21,10 @@ Gen/RtpBridge.v
     the discontinuity threshold (`delta > 900_000`), the re-base step (`.wrapping_add(3000)`), with the
     whole statement shape checked verbatim.
   * the sequence step (`next_sequence_number.wrapping_add(1)`).
-  * the one-byte extension profile and the id / length limits of `RtpHeader::set_extension` (src/rtp.rs).
+  * shape checks of the relay path `try_bridge_rewrite_rtp` (target chosen from the original payload
+    type before the rewrite; protect with the target's session / drop when SRTP is required without
+    one / marshal otherwise) and of the MID stamping call (`set_extension(ext_id, mid.as_bytes())`,
+    result ignored, only when extensions are not stripped).  set_extension itself is C15's model.
 """
 import re
 import sys
@@ -69,15 +75,41 @@ def gen_demux():
     stage_re = re.compile(r"if (?P<guard>[^{}]*?) \{ selected = (?P<lookup>[^;]+); bind_ssrc = (?P<flag>[^;]+); \}")
     pos = 0
     found = []
+    ext_count = None     # number of stages in front of `let by_extension = selected.is_some();`
+    EXT_MARK = "let by_extension = selected.is_some(); "
     while True:
+        if block.startswith(EXT_MARK, pos):
+            if ext_count is not None:
+                raise Untranslatable("RtpTransport::receive: `by_extension` assigned twice")
+            ext_count = len(found)
+            pos += len(EXT_MARK)
+            continue
         sm = stage_re.match(block, pos)
-        if not sm:
+        if not sm or sm.group("lookup") == "None":
             break
         found.append((sm.group("guard"), sm.group("lookup"), sm.group("flag")))
         pos = sm.end()
         while pos < len(block) and block[pos] == " ":
             pos += 1
     tail = block[pos:]
+    # optional MID guard: a non-extension hit on a listener registered for another MID is dropped
+    GUARD = ("if !by_extension && let Some(mid) = &mid_bytes && let Ok(mid_str) = std::str::from_utf8(mid) "
+             "&& let Some(tx) = selected.as_ref() && listeners.registered_for_other_mid(tx, mid_str) "
+             "{ selected = None; bind_ssrc = false; } ")
+    mid_guard = tail.startswith(GUARD)
+    if mid_guard:
+        tail = tail[len(GUARD):]
+        if ext_count is None:
+            raise Untranslatable("RtpTransport::receive: MID guard without `by_extension`")
+        fm = re.search(r"fn registered_for_other_mid\s*\(\s*&self,\s*tx: &mpsc::Sender<\(RtpPacket, SocketAddr\)>,\s*mid: &str,?\s*\)\s*->\s*bool\s*\{", src)
+        if not fm:
+            raise Untranslatable("ListenerRegistry::registered_for_other_mid not found / signature changed")
+        rsrc = norm(src[fm.end() - 1:rs2v.balanced(src, fm.end() - 1)])
+        if rsrc != ("{ self.routes .iter() .any(|route| route.tx.same_channel(tx) && "
+                    "route.mid.as_deref().is_some_and(|m| m != mid)) }"):
+            raise Untranslatable("ListenerRegistry::registered_for_other_mid changed: " + rsrc)
+    elif ext_count is not None or "by_extension" in block:
+        raise Untranslatable("RtpTransport::receive: `by_extension` present but the MID guard has an unexpected shape: " + tail[:200])
     if not re.fullmatch(r"if let Some\(tx\) = selected\.as_ref\(\) && bind_ssrc \{ listeners\.bind_ssrc_route\(ssrc, tx\.clone\(\)\); \}", tail):
         raise Untranslatable("RtpTransport::receive: SSRC bind after selection changed: " + tail[:160])
     if len(found) != len(STAGES):
@@ -127,6 +159,10 @@ def gen_demux():
     m.raw("Inductive stage : Set := StRid | StMid | StSsrc | StPt | StProv.\n"
           "Definition demux_stages : list (stage * bool) := [%s]." % "; ".join(out),
           "RtpTransport::receive selection order and bind flags", PATH)
+    names = [o.split(",")[0].strip("(") for o in out]
+    m.raw("Definition demux_mid_guard : bool := %s.\nDefinition demux_ext_stages : list stage := [%s]."
+          % ("true" if mid_guard else "false", "; ".join(names[:ext_count or 0])),
+          "RtpTransport::receive MID guard (registered_for_other_mid) and the stages exempt from it", PATH)
     return m
 
 
@@ -161,19 +197,25 @@ def gen_bridge():
         raise Untranslatable("RewriteBridge::rewrite_packet: output SSRC computation changed")
     if not re.search(r"packet\.header\.ssrc = state\.out_ssrc;", body):
         raise Untranslatable("RewriteBridge::rewrite_packet: SSRC assignment changed")
-    # set_extension limits (MID stamping)
-    rsrc = rs2v.strip_comments(rs2v.read(RTP))
-    _, _, sx = rs2v.find_fn(rsrc, "set_extension", "RtpHeader")
-    sx = norm(sx)
-    a = re.search(r"if id == (\d+) \|\| id >= (\d+) \{ return Err", sx)
-    b = re.search(r"if data\.len\(\) > (\d+) \|\| data\.is_empty\(\) \{ return Err", sx)
-    c = re.search(r"RtpHeaderExtension::new\((0x[0-9A-Fa-f]+), Vec::new\(\)\)\); if ext\.profile != (0x[0-9A-Fa-f]+) \{", sx)
-    if not (a and b and c) or lit(c.group(1)) != lit(c.group(2)):
-        raise Untranslatable("RtpHeader::set_extension: id / length / profile guards changed")
-    m.raw("Definition ext_id_min_invalid : Z := %s.\nDefinition ext_id_limit : Z := %s." % (a.group(1), a.group(2)),
-          "set_extension id guard", RTP)
-    m.raw("Definition ext_data_max : Z := %s." % b.group(1), "set_extension length guard", RTP)
-    m.raw("Definition ext_profile_one_byte : Z := %d." % lit(c.group(1)), "set_extension profile", RTP)
+    if not re.search(r"if !self\.options\.strip_extensions \{ if let Some\(r\) = &rule && let \(Some\(ext_id\), Some\(mid\)\) = "
+                     r"\(r\.sdes_mid_extension_id, &r\.sdes_mid\) \{ let _ = packet\.header\.set_extension\(ext_id, mid\.as_bytes\(\)\); \} \}", body):
+        raise Untranslatable("RewriteBridge::rewrite_packet: MID stamping changed")
+    _, _, relay = rs2v.find_fn(src, "try_bridge_rewrite_rtp", "RtpTransport")
+    relay = norm(relay)
+    for what, rx in (
+        ("no bridge -> packet goes on to the listeners", r"if !self\.has_bridge\.load\(Ordering::Acquire\) \{ return Some\(packet\); \}"),
+        ("target chosen from the original PT before the rewrite",
+         r"let target = bridge\.target_for\(packet\.header\.payload_type\); bridge\.rewrite_packet\(&mut packet\); target \};"),
+        ("protect with the target's session, drop on error",
+         r"if let Some\(session\) = &\*session_guard \{ let mut srtp = session\.lock\(\); let protected_len = srtp\.protected_rtp_len\(&packet\); "
+         r"marshal_buf\.resize\(protected_len, 0\); if srtp\.protect_rtp\(&packet, &mut marshal_buf\[\.\.\]\)\.is_err\(\) \{"),
+        ("SRTP required without a session -> drop", r"\} else if target\.srtp_required \{"),
+        ("plain target -> marshal", r"\} else \{ packet\.marshal_into\(marshal_buf\); \}"),
+        ("send through the target's ICE connection", r"target\.ice_conn\(\)\.try_send\(marshal_buf\)"),
+    ):
+        if not re.search(rx, relay):
+            raise Untranslatable("RtpTransport::try_bridge_rewrite_rtp: shape changed (%s)" % what)
+    m.raw("Definition bridge_relay_shape_checked : bool := true.", "try_bridge_rewrite_rtp relay path shape", PATH)
     return m
 
 
